@@ -347,7 +347,7 @@ later `Get` can hand it out), and the pool holds no state twice. -/
 theorem exclusive_ownership (puts : Exit → Nat) (hp : ∀ e, puts e ≤ 1) (evs : List OwnEv) :
     (ownRun puts evs).borrowed.Nodup ∧ (ownRun puts evs).pool.Nodup ∧
     ∀ x ∈ (ownRun puts evs).borrowed, x ∉ (ownRun puts evs).pool := by
-  obtain ⟨hnd, _⟩ := ownRun_inv puts hp evs
+  obtain ⟨hnd, _, _⟩ := ownRun_inv puts hp evs
   rw [List.nodup_append] at hnd
   obtain ⟨h1, h2, h3⟩ := hnd
   exact ⟨h2, h1, fun x hx hxp => h3 x hxp x hx rfl⟩
@@ -356,13 +356,15 @@ theorem exclusive_ownership (puts : Exit → Nat) (hp : ∀ e, puts e ≤ 1) (ev
 deferred release), and — fact from the tree, measured on the compiled code by
 draining the pool after each kind of ending, incl. a failing transport write
 through `responseWriter.WriteMsg` — no ending leaves the same state in the
-pool twice. -/
+pool twice, and the reply path's `Transport.Write` runs while the state whose
+buffer it reads is still borrowed (not resting in the pool). -/
 theorem trypack_puts_once :
     (∀ e, tryPackPuts e = 1) ∧
     SdnsVerif.Gen.C15.puts_after_ok ≤ 1 ∧ SdnsVerif.Gen.C15.puts_after_err ≤ 1 ∧
     SdnsVerif.Gen.C15.puts_after_panic ≤ 1 ∧ SdnsVerif.Gen.C15.puts_after_fail ≤ 1 ∧
-    SdnsVerif.Gen.C15.puts_after_werr ≤ 1 := by
-  refine ⟨fun _ => rfl, ?_, ?_, ?_, ?_, ?_⟩ <;> decide
+    SdnsVerif.Gen.C15.puts_after_werr ≤ 1 ∧
+    SdnsVerif.Gen.C15.write_while_borrowed = true := by
+  refine ⟨fun _ => rfl, ?_, ?_, ?_, ?_, ?_, ?_⟩ <;> decide
 
 /-- hence the pooled packer's states have one borrower at a time, whatever the history. -/
 theorem trypack_exclusive (evs : List OwnEv) :
@@ -371,12 +373,27 @@ theorem trypack_exclusive (evs : List OwnEv) :
   let h := exclusive_ownership tryPackPuts (fun _ => Nat.le_refl 1) evs
   ⟨h.1, h.2.2⟩
 
+/-- **Borrowed bytes are the borrower's own.**  Under the same discipline, in
+every reachable state every pack in flight finds in its state's buffer the
+bytes of ITS message — no overlapping pack, whatever the interleaving, has
+written there since.  This is what a consumer relies on for as long as it runs
+inside `TryPack` (the reply path's `Transport.Write`, `PackClone`'s copy, the
+proof fingerprint's hash); it says nothing once the pack has ended. -/
+theorem borrowed_bytes_are_own (puts : Exit → Nat) (hp : ∀ e, puts e ≤ 1) (evs : List OwnEv) :
+    ∀ id ∈ (ownRun puts evs).borrowed, (ownRun puts evs).content id = (ownRun puts evs).holder id :=
+  (ownRun_inv puts hp evs).2.2
+
+-- a consumer still inside its pack (state 0, message 7) while two other packs come and go reads its own bytes …
+example : (ownRun tryPackPuts [.get none 7, .get none 8, .finish 1 .consumed, .get (some 1) 9]).content 0 = 7 := by decide
+-- … whereas bytes kept past the end of the pack are the next borrower's (use after release)
+example : (ownRun tryPackPuts [.get none 7, .finish 0 .consumed, .get (some 0) 9]).content 0 = 9 := by decide
+
 -- the hypothesis matters: a second Put on the consumer-error path lets two later, overlapping packs share a state
 example : (ownRun (fun e => if e = Exit.consumerError then 2 else 1)
-    [.get none, .finish 0 .consumerError, .get (some 0), .get (some 0)]).borrowed = [0, 0] := by decide
+    [.get none 1, .finish 0 .consumerError, .get (some 0) 2, .get (some 0) 3]).borrowed = [0, 0] := by decide
 -- while the code's discipline gives the second pack a state of its own
 example : (ownRun tryPackPuts
-    [.get none, .finish 0 .consumerError, .get (some 0), .get (some 0)]).borrowed = [1, 0] := by decide
+    [.get none 1, .finish 0 .consumerError, .get (some 0) 2, .get (some 0) 3]).borrowed = [1, 0] := by decide
 
 /-! ### the fallback and `PackClone` -/
 
@@ -460,6 +477,106 @@ theorem packClone_eq_library {β ν δ : Type} (lib : Lib β ν δ) (hm : Mono l
     rw [message_unchanged lib m heap st hst.2.2.2.2]
     exact ⟨fallback_eq_library lib m heap fresh hfresh, tryPack_preserves_clean lib m heap st hst⟩
 
+/-! ### the consumers -/
+
+/-- **One reply, the library's bytes.**  `responseWriter.WriteMsg` asks the
+transport for exactly one thing: on a chain that declared `AllowDirectPack`
+(and is not an internal sub-query's) and for a message the pooled packer
+handles, a raw `Write` of exactly the library's encoding; in every other case
+— no declaration, internal writer, declined message — the unchanged message
+through `WriteMsg` (the library path).  The message's records are untouched
+and the pooled state goes back clean either way. -/
+theorem writeMsg_one_reply {β ν δ : Type} (lib : Lib β ν δ) (hm : Mono lib) (m : Msg ν) (heap : Heap β)
+    (st : PState β δ) (hst : Clean lib st) (dp internal : Bool)
+    (hroom : (libPack lib m heap).1 = (libPackWith lib m heap (max (libBufLen lib m heap) packBufferSize)).1) :
+    ((writeMsg lib m heap st dp internal).events = [.writeMsg] ∨
+      ∃ b, (writeMsg lib m heap st dp internal).events = [.write b] ∧ dp = true ∧ internal = false ∧
+        (libPack lib m heap).1 = .ok b ∧ (writeMsg lib m heap st dp internal).size = b.length) ∧
+    (writeMsg lib m heap st dp internal).heap = heap ∧ Clean lib (writeMsg lib m heap st dp internal).st := by
+  unfold writeMsg
+  cases hd : (dp && !internal) with
+  | false => simp [hst]
+  | true =>
+    have hdp : dp = true ∧ internal = false := by
+      cases dp <;> cases internal <;> simp at hd ⊢
+    simp only [if_true]
+    have hheap := message_unchanged lib m heap st hst.2.2.2.2
+    have hclean := tryPack_preserves_clean lib m heap st hst
+    cases hh : (tryPack lib m heap st).handled with
+    | false => simp [hheap, hclean]
+    | true =>
+      obtain ⟨s, hs, hlib⟩ := handled_eq_library lib hm m heap st hst hroom hh
+      simp only [hs]
+      exact ⟨Or.inr ⟨s.data, rfl, hdp.1, hdp.2, hlib, rfl⟩, hheap, hclean⟩
+
+/-- **What a cache entry keeps** is `PackClone` of the storable view, hence
+(`packClone_eq_library`) the library's encoding of that view — header,
+question, answer, authority, the additional section without its OPT records,
+compressed — whether or not the pooled packer handled it. -/
+theorem admit_eq_library_view {β ν δ : Type} (lib : Lib β ν δ) (hm : Mono lib) (m : Msg ν) (heap : Heap β)
+    (st : PState β δ) (fresh : Nat) (hst : Clean lib st)
+    (hroom : (libPack lib (storableView heap m) heap).1 =
+      (libPackWith lib (storableView heap m) heap (max (libBufLen lib (storableView heap m) heap) packBufferSize)).1)
+    (hfresh : ∀ s ∈ (storableView heap m).records, s ≠ some fresh) :
+    (admitWire lib m heap st fresh).1 = (libPack lib (storableView heap m) heap).1 :=
+  (packClone_eq_library lib hm _ heap st fresh hst hroom hfresh).1
+
+/-- **Admission never writes into the caller's message** — on either path and
+with no hypothesis on the primitives: the view has no `*dns.OPT` left in its
+additional section, so neither the pooled packer (never) nor the library
+fallback (only ever into a selected OPT) has anything to write to. -/
+theorem admit_leaves_message {β ν δ : Type} (lib : Lib β ν δ) (m : Msg ν) (heap : Heap β)
+    (st : PState β δ) (fresh : Nat) (hN : st.buf.length = packBufferSize) :
+    (admitWire lib m heap st fresh).2.1 = heap := by
+  unfold admitWire packClone
+  simp only
+  have hheap := message_unchanged lib (storableView heap m) heap st hN
+  cases (tryPack lib (storableView heap m) heap st).handled with
+  | true => simpa using hheap
+  | false =>
+    simp only [Bool.false_eq_true, if_false, hheap]
+    have hno := storableView_no_opt heap m
+    have hlib := libPack_heap_of_no_opt lib (storableView heap m) heap hno
+    unfold libraryPackImmutable
+    split
+    · exact hlib
+    · split
+      · exact hlib
+      · split
+        · rename_i p hsel
+          exfalso
+          apply hno p
+          rw [opt_selection_eq_isEdns0, hsel]
+          rfl
+        · exact hlib
+
+/-- the additional section of the view keeps every record that is not a
+`*dns.OPT`, in order, and nothing else. -/
+theorem storableView_extra {β ν : Type} (heap : Heap β) (m : Msg ν) (s : Slot) :
+    s ∈ (storableView heap m).extra ↔ s ∈ m.extra ∧ (∀ p, s = some p → (heap p).isOPT = false) := by
+  simp only [storableView, List.mem_filter]
+  cases s with
+  | none => simp
+  | some p => simp
+
+/-- **The assumption `Mono` follows from how the library bounds-checks**: if
+each primitive fails exactly below the room it needs and otherwise returns a
+result that does not mention the buffer length (`Room`), a larger buffer never
+changes a success. -/
+theorem mono_from_bounds_checks {β ν δ : Type} (lib : Lib β ν δ) (h : Room lib) : Mono lib :=
+  mono_of_room lib h
+
+/-- **Facts from the compiled library** (regenerated every run over a fixed
+sample of generated messages and all their records, and re-checked on every
+generated message by the `lib room` op): no primitive changed a successful
+result when given a larger buffer, no message packed differently in its own
+`Len()+1` buffer than in one as large as the pooled buffer, and the sample
+was not empty. -/
+theorem library_assumptions_hold_on_sample :
+    SdnsVerif.Gen.C15.lib_mono_violations = 0 ∧ SdnsVerif.Gen.C15.lib_hroom_violations = 0 ∧
+    SdnsVerif.Gen.C15.lib_sample_records ≥ 1000 ∧ SdnsVerif.Gen.C15.lib_sample_messages ≥ 300 := by
+  decide
+
 /-! ### non-vacuity: a concrete instance on which every hypothesis holds -/
 
 /-- a toy instance of the primitives: a record is 11 header bytes + `rest`
@@ -533,6 +650,31 @@ example : (packClone toyLib toyMsg toyHeap toySt 77).1 = (libPack toyLib toyMsg 
 example : (libraryPackImmutable toyLib { toyMsg with ns := [some 5000] } toyHeap 77).1 =
     (libPack toyLib { toyMsg with ns := [some 5000] } toyHeap).1 :=
   fallback_eq_library toyLib _ toyHeap 77 (by decide)
+
+-- the reply path on the toy message: one raw write of the library's bytes; an internal writer gets WriteMsg
+example : ∃ b, (writeMsg toyLib toyMsg toyHeap toySt true false).events = [.write b] ∧
+    (libPack toyLib toyMsg toyHeap).1 = .ok b := by
+  rcases (writeMsg_one_reply toyLib toy_mono toyMsg toyHeap toySt toy_clean true false (by decide)).1 with h | ⟨b, h, _, _, hl, _⟩
+  · exfalso
+    unfold writeMsg at h
+    simp only [Bool.not_false, Bool.and_self, if_true, toy_handled] at h
+    obtain ⟨s, hs, _⟩ := handled_eq_library toyLib toy_mono toyMsg toyHeap toySt toy_clean (by decide) toy_handled
+    rw [hs] at h
+    simp at h
+  · exact ⟨b, h, hl⟩
+example : (writeMsg toyLib toyMsg toyHeap toySt true true).events = [.writeMsg] := by rfl
+
+-- the view drops both OPTs (pointers 2 and 3) and keeps the rest in order; the toy primitives satisfy Room
+example : (storableView toyHeap toyMsg).extra = [some 1, some 4] ∧ (storableView toyHeap toyMsg).compress = true := by decide
+example : (admitWire toyLib toyMsg toyHeap toySt 77).2.1 = toyHeap :=
+  admit_leaves_message toyLib toyMsg toyHeap toySt 77 toy_clean.2.2.2.2
+example : Room toyLib := by
+  constructor
+  · intro o off d
+    exact ⟨11 + o.rest, List.replicate (11 + o.rest) (UInt8.ofNat (o.hdr.ttl / 2 ^ 24)), d + 1, o.rest, fun _ => d,
+      fun L => by simp only [toyLib]; rw [Nat.add_assoc]⟩
+  · intro n off d
+    exact ⟨n, List.replicate n 7, d + 1, 0, fun _ => d, fun L => by simp only [toyLib]⟩
 
 -- the last of several OPTs is the one selected, a later ordinary record does not matter
 example : selectOPT toyHeap toyMsg.extra = (some 3, true) :=
